@@ -30,7 +30,7 @@ type hist struct {
 	ops []progs.Op
 }
 
-func genHistory(r *vlib.Rand) hist {
+func genHistory(r *vlib.Rand, conflict bool) hist {
 	w := progs.NewWorld()
 	h := hist{w: w}
 	o := progs.GenOpts{Expire: true, Hidden: true, MaxDecls: 2, Names: []string{"x", "y", "z"}}
@@ -38,9 +38,16 @@ func genHistory(r *vlib.Rand) hist {
 	for _, n := range o.Names {
 		kindOf[n] = vlib.Pick(r, []string{"counter", "gauge", "timer"})
 	}
+	// conflict stream: every generated text draws its kinds afresh, so two files
+	// (or two versions of one file) can declare one name with different kinds and
+	// Store.Add refuses the later one
 	align := func(p *progs.Prog) *progs.Prog {
 		for i := range p.Decls {
-			p.Decls[i].Kind = kindOf[p.Decls[i].Name]
+			if conflict && r.Chance(50) {
+				p.Decls[i].Kind = vlib.Pick(r, []string{"counter", "gauge", "timer"})
+			} else {
+				p.Decls[i].Kind = kindOf[p.Decls[i].Name]
+			}
 			if p.Decls[i].Kind == "counter" {
 				p.Decls[i].Float = false
 			}
@@ -159,6 +166,41 @@ func progView(s progs.Snap, p string) []progs.NamedMetrics {
 	return out
 }
 
+func errsOf(s progs.Snap, name string) int64 {
+	if s.Counters == nil {
+		return 0
+	}
+	for _, pc := range s.Counters.Progs {
+		if pc.Prog == name {
+			return pc.Errs
+		}
+	}
+	return 0
+}
+
+func errsMoved(prev, cur progs.Snap, name string) bool { return errsOf(cur, name) > errsOf(prev, name) }
+
+func kindClash(ds []progs.DeclObs, s progs.Snap) bool {
+	for _, d := range ds {
+		if d.Hidden {
+			continue
+		}
+		for _, nm := range s.Store {
+			if nm.Name != d.Name {
+				continue
+			}
+			for _, m := range nm.Metrics {
+				if m.Decl.Kind != d.Kind {
+					return true
+				}
+			}
+		}
+	}
+	return false
+}
+
+var refusals int
+
 func check(h hist, c *progs.Case) (out []finding, interesting bool) {
 	expect := map[string]int{} // name -> source id expected to run
 	var prev progs.Snap
@@ -177,7 +219,20 @@ func check(h hist, c *progs.Case) (out []finding, interesting bool) {
 					continue
 				}
 				ever[e.Name] = true
-				if _, ok := progs.CompileDecls(e.Name, h.w.Srcs.Texts[e.Src]); ok {
+				ds, ok := progs.CompileDecls(e.Name, h.w.Srcs.Texts[e.Src])
+				if ok && errsMoved(prev, cur, e.Name) {
+					// compiled but the load failed: permitted only when the store
+					// holds one of its names with another kind (C06)
+					if kindClash(ds, cur) {
+						refusals++
+						if _, was := expect[e.Name]; was {
+							interesting = true
+						}
+						continue
+					}
+					out = append(out, finding{"load-error-without-cause", fmt.Sprintf("step %d: %s compiles and clashes with no metric kind in the store, yet prog_load_errors_total moved", i+1, e.Name)})
+				}
+				if ok {
 					expect[e.Name] = e.Src
 				} else if _, was := expect[e.Name]; was {
 					interesting = true // a broken edit must leave the previous version running
@@ -229,8 +284,13 @@ func main() {
 		n = 5000
 	}
 	for i := 0; i < n; i++ {
-		h := genHistory(rng.Fork())
+		conflict := i%4 == 3
+		h := genHistory(rng.Fork(), conflict)
 		c := h.w.Run(h.ops, false, true)
+		if conflict {
+			c.Note = "kinds may clash"
+			out.Count("stream/kinds-may-clash")
+		}
 		fs, interesting := check(h, c)
 		id := out.NextID()
 		out.Add(h.w.CoqDCase(id, c), c, interesting)
@@ -261,7 +321,8 @@ func main() {
 			out.Violate(f.class, f.what, map[string]any{"kind": "history", "case": c})
 		}
 	}
-	out.Flush("3-6 scans of a real directory holding 1-3 program files, dot-files, other extensions and subdirectories (one named z.mtail), edited between scans (add, touch, change, break, remove, rename, file<->directory) and interleaved with lines; non-trivial when a broken edit must keep the previous version running or a vanished file must be unloaded", false)
+	out.Extra["loads_refused_by_store"] = refusals
+	out.Flush("3-6 scans of a real directory holding 1-3 program files, dot-files, other extensions and subdirectories (one named z.mtail), edited between scans (add, touch, change, break, remove, rename, file<->directory) and interleaved with lines; every fourth history lets metric kinds clash between files so that loads are refused by the store (the previous version must then keep running); non-trivial when a broken edit must keep the previous version running or a vanished file must be unloaded", false)
 }
 
 func replay(path string) {
